@@ -6,3 +6,5 @@ import "verif/harness/internal/core"
 
 // without the overlay map ranges are not rewritten: Go's own order
 func c01WithMapOrders(c *core.Ctx, dir string, k c01Case) { c01InprocOrder(c, dir, k) }
+
+func setProcOrder(spec string, on bool) {}
